@@ -155,6 +155,28 @@ func (x *Ctx) roles() map[string]*ssa.Function {
 			}
 		}
 	}
+	// borrow / return by what they do, when they are not methods of that shape (a plain function
+	// releaseValueReader(parent, child)): the private function that takes a reader from a sync.Pool, and the one that
+	// puts one back
+	for role, meth := range map[string]string{"ValueReader.borrowValueReader": "Get", "ValueReader.returnValueReader": "Put"} {
+		if m[role] != nil {
+			continue
+		}
+		var cands []*ssa.Function
+		for _, fn := range w.SrcFuncs() {
+			if fn.Pkg != w.SRoot || !private(fn) {
+				continue
+			}
+			for _, c := range staticCallees(fn) {
+				if c.Name() == meth && c.Signature.Recv() != nil && strings.HasSuffix(c.Signature.Recv().Type().String(), "sync.Pool") {
+					cands = append(cands, fn)
+				}
+			}
+		}
+		if len(cands) == 1 {
+			m[role] = cands[0]
+		}
+	}
 	// the float parser
 	if pf := w.SFP.Func("ParseJSONFloatPrefix"); pf != nil {
 		for _, c := range staticCallees(pf) {
